@@ -4,7 +4,13 @@ import vlib, felib, asnprint
 from vlib import cargo_build, outdir, ToolError
 from props import c07, c13
 
-DEVS = ["MinBoundTreatedAsZero", "ReparseDefaultIntegerLosesNamedNumbers", "ReparseWrapperOfReferenceGainsTag"]
+DEVS = ["MinBoundTreatedAsZero", "ReparseDefaultIntegerLosesNamedNumbers", "ReparseWrapperOfReferenceGainsTag", "ExtensibleEmptySequence"]
+
+
+def ext_empty(case):
+    """SEQUENCE { ... } / SET { ... }: extensible, no root component (input class of F-EXTENSIBLE-EMPTY-SEQUENCE)."""
+    t = case["ast"]["t"]
+    return t.get("k") == "seq" and not t["comps"] and t["extAfter"] == 0
 
 
 def normalise_choice_tag(rust, reparsed):
@@ -70,7 +76,7 @@ def check_consts(name, consts, expanded):
         got = (b.get("DEFAULT_VALUE") or "").replace(" ", "")
         lit = x["lit"]
         want = {"int": lambda: "&%d" % lit["v"], "bool": lambda: "&%s" % ("true" if lit["v"] else "false"),
-                "str": lambda: '&"%s"' % "".join(chr(c) for c in lit["v"]), "enum": lambda: None}[lit["k"]]()
+                "str": lambda: '&"%s"' % "".join(chr(c) for c in lit["v"]).replace("\\", "\\\\").replace('"', '\\"'), "enum": lambda: None}[lit["k"]]()
         if want is not None and got != want:
             diffs.append("%s::DEFAULT_VALUE = %s, source says %s" % (who, got, want))
     for e in consts["pos"]:
@@ -100,6 +106,8 @@ def dev_class(case, dev):
     """Input classes of the open findings of this property."""
     a = json.dumps(case["ast"])
     cls = set()
+    if "ExtensibleEmptySequence" in dev and ext_empty(case):
+        cls.add("ExtensibleEmptySequence")
     if "MinBoundTreatedAsZero" in dev and re.search(r'"hasLb": false, [^{}]*"hasUb": true', json.dumps(case["ast"], sort_keys=True)):
         cls.add("MinBoundTreatedAsZero")
     t = case["ast"]["t"]
@@ -175,7 +183,11 @@ def run(v):
     t, cases = c07.grammar_cases("C08", v.tier)
     v.add_tlc("MC_Grammar", t)
     cargo_build()
-    mods = c07.modules_of(cases, d, "Gm")
+    # the definitions inside the class of the open finding crash the generator: they get a module of their own
+    apart = [c for c in cases if ext_empty(c)] if "ExtensibleEmptySequence" in dev else []
+    mods = c07.modules_of([c for c in cases if c not in apart], d, "Gm")
+    if apart:
+        mods += c07.modules_of(apart, d, "Gx")
     nbad = checked = nsub = ndeep = 0
     devhits = {}
     seen_subs = set()
@@ -194,6 +206,9 @@ def run(v):
     for f, name, chunk in mods:
         rows = felib.pipeline([open(f).read()], d, tag="c08_" + name)
         if isinstance(rows, dict) or (rows and "error" in rows[0]):
+            if name.startswith("Gx") and "index out of bounds" in str(rows):
+                devhits["ExtensibleEmptySequence"] = devhits.get("ExtensibleEmptySequence", 0) + len(chunk)
+                continue
             report(None, "the generator / attribute pipeline fails on module %s: %s" % (name, str(rows)[:300]), {"module": open(f).read(), "result": rows}, "module_%03d.json")
             continue
         by = {r["name"]: r for r in rows}
